@@ -177,7 +177,7 @@ def check_maps(ctx, c):
     xs, ys = x[order], y[order]
     dy = np.diff(ys)
     resolvable = dyo[order][:-1] * np.diff(xs) > 1e-11 * np.maximum(1.0, np.abs(ys[:-1]))
-    if np.any(dy < 0) or np.any(resolvable & ~(dy > 0)):
+    if not np.all(dy >= 0) or np.any(resolvable & ~(dy > 0)):
         i = int(np.argmax((dy < 0) | (resolvable & ~(dy > 0))))
         ctx.fail({"what": "normalize-not-increasing", "norm": name}, f"{name}{p}: y({xs[i]!r})={ys[i]!r} >= y({xs[i+1]!r})={ys[i+1]!r}")
     # (4) derivative: against the analytic derivative of the documented formula and against a Richardson
@@ -334,7 +334,7 @@ def check_fit(ctx, c):
     ctx.event("fit_checked")
     ctx.cell(f"fit/{name}")
     lam_hat = float(norm.lmbda)
-    if abs(float(res["lmbda"]) - lam_hat) > 0:
+    if not abs(float(res["lmbda"]) - lam_hat) <= 0:
         ctx.fail({"what": "fit-result!=state", "norm": name}, f"returned {res} but lmbda={lam_hat}")
     p_hat = dict(p_true, lmbda=lam_hat)
 
@@ -359,7 +359,7 @@ def check_fit(ctx, c):
     if curv > 0:
         se = 1 / math.sqrt(curv)
         ctx.resolve("fit_se", se)
-        if abs(lam_hat - lam) > 6 * se + 1e-3:
+        if not abs(lam_hat - lam) <= 6 * se + 1e-3:
             ctx.fail({"what": "fit-does-not-recover-parameter", "norm": name}, f"true {lam} fitted {lam_hat} se {se:.3g}")
     import scipy.stats as st
 
